@@ -223,12 +223,47 @@ class Universe:
         name = self.names[k % len(self.names)]
         inf = self.info(name)
         count = {}
+        first_blk = {}
         for o in inf.by_kind.get("dir_leaf", []):
             count[o.ino] = count.get(o.ino, 0) + 1
+            if o.lblk == 0:
+                first_blk[o.ino] = o.off // inf.bs
         cand = [i for i in count if i >= inf.first_ino and inf.inodes.get(i, {}).get("isdir")]
         if not cand:
             return None
         ino = max(cand, key=lambda i: (count[i], -i))
+        if k >= 2 * len(self.names):
+            # cross-claim: a regular file with a higher inode number maps the first block of a
+            # multi-block directory as its own first block (passes 1B-1D have to clone it; with
+            # bigalloc the blocks of the directory share a cluster)
+            multi = [i for i in cand if count[i] >= 2 and i in first_blk]
+            if not multi:
+                return None
+            dino = min(multi, key=lambda i: (-count[i], i)) if (k // len(self.names)) % 2 == 0 else min(multi)
+            for fino in sorted(inf.inodes):
+                fi = inf.inodes[fino]
+                if fino <= dino or fi.get("isdir") or fi["size"] < inf.bs:
+                    continue
+                raw = inf.read(fi["off"], 128)
+                mode = struct.unpack_from("<H", raw, 0)[0]
+                if (mode & 0xF000) != 0x8000 or (fi["flags"] & (I.FL_INLINE_DATA | I.FL_EA_INODE)):
+                    continue
+                if fi["flags"] & I.FL_EXTENTS:
+                    magic, entries, _mx, depth = struct.unpack_from("<HHHH", raw, 0x28)
+                    if magic != 0xF30A or depth != 0 or entries < 1:
+                        continue
+                    at = fi["off"] + 0x28 + 12 + 8
+                    hi_at = fi["off"] + 0x28 + 12 + 6
+                    p = [(at, struct.pack("<I", first_blk[dino] & 0xFFFFFFFF)),
+                         (hi_at, struct.pack("<H", first_blk[dino] >> 32))]
+                else:
+                    if struct.unpack_from("<I", raw, 0x28)[0] == 0:
+                        continue
+                    p = [(fi["off"] + 0x28, struct.pack("<I", first_blk[dino]))]
+                d = [("inode", "first-block", "claims-dir-block", "ino%d -> block %d of directory ino%d (%d blocks)"
+                      % (fino, first_blk[dino], dino, count[dino]))]
+                return self._finish(-(k + 1), name, inf, "all", d, [p])
+            return None
         how = ["zero-inode", "mode-0"][(k // len(self.names)) % 2]
         base = inf.inodes[ino]["off"]
         p = [(base, bytes(128))] if how == "zero-inode" else [(base, b"\0\0")]
